@@ -84,5 +84,13 @@ META["C06"] = {
     "note": "Trusted: Lean kernel, transcription (replay-validated). 'no stored object changes otherwise' is proved in the form 'no Update/Delete/Create call is made' for the origin check and 'no Update call' for Accept; F3 (Blocked was asked about the activity id for embedded actors) was a genuine defect, repaired in the repository (fix: commit) and recorded in known_findings.json.",
 }
 
+META["C02"] = {
+    "category": "proof",
+    "design_ref": "DESIGN.md section 5 / C02",
+    "technique": "Lean 4: refinement of the recursive recipient expansion (resolveActors: fuel, accumulators, error catching, monadic plumbing) to the declarative 'actor documents reachable within d levels of a fixed federation graph' by induction on fuel and on the recipient list, for every graph, depth and recipient list; dedupeIRIs proved to return each non-ignored recipient exactly once; Public filter lemma. Trace replay of the real code + an oracle that evaluates the theorem's reachActors on the graph read off the implementation's own Dereference answers and compares the BatchDeliver recipient set.",
+    "text": "Proved on the model for all graphs: skipped failures never fail the expansion, nothing beyond the depth limit is used, result = reachable actors in order; final list has no duplicates and never the ignored (own) inbox. The assembly of these parts inside prepare (stored inboxes first, removal of actors with a stored inbox, own inbox lookup) is validated per run by the oracle and by call-for-call replay, not yet by a theorem.",
+    "note": "Trusted: Lean kernel, transcription (replay-validated), fakes. F2 (delivery failed when the last recipient was unreachable) was a genuine defect, repaired (fix: commit).",
+}
+
 _ALL = ["C%02d" % i for i in range(1, 21)]
 NOT_APPLICABLE = [{"property_id": p, "reason": PENDING} for p in _ALL if p not in META]
